@@ -1347,6 +1347,12 @@ class LiteralData(Packet):
         fnl = packet[0]
         del packet[0]
 
+        # format, length of the file name, file name and date are octets of this packet: when the header declares
+        # fewer than they take, they (and, the count of content octets being negative, the contents) would be
+        # taken from the packets that follow
+        if self.header.length < 6 + fnl:
+            raise ValueError("literal data packet: {:d} octets cannot hold its file name and date".format(self.header.length))
+
         self.filename = packet[:fnl].decode('latin-1')
         del packet[:fnl]
 
